@@ -123,6 +123,8 @@ def session(spec):
         tok = brewrun.new_recorder()
         rec = brewrun._REC[tok]
         model = brewrun.RModel(LinearSVC(dual=False, class_weight={0: 1, 1: 1}), train_fdr=0.05, max_iter=3, rng=spec["seed"], token=tok)
+        if spec.get("ensemble"):
+            model.slow_fold = 1       # the first fold model answers last when several workers predict in parallel
         models_in = model
         first = None
         if spec.get("refeed") is not None:
@@ -142,6 +144,8 @@ def session(spec):
                 out["labels"].append("refeed_skipped_untrained_model")
                 out["digests"].append("skipped")
         kw = {"subset_max_train": int(spec["cap"])} if spec.get("cap") else {}
+        if spec.get("ensemble"):
+            kw["ensemble"] = True
         _, ms, scs, descs = mokapot.brew([ds], models_in, test_fdr=0.05, folds=spec["folds"],
                                          max_workers=spec.get("workers", 1), rng=spec["seed"], **kw)
         scores = np.asarray(scs[0], dtype=float)
